@@ -141,6 +141,40 @@ def make_numeric(client, history, cfg):
     return h
 
 
+def h_settings_twice(client):
+    """two SETTINGS frames, each carrying one solver-chosen setting (the same id twice, or two
+    different ones; known or unknown) with an arbitrary 32-bit value: whatever the second
+    meets in the state the first one left, only ProtocolError may come out"""
+    def h():
+        with h2h.native():
+            ctx = ops.Ctx(client)
+            ops.run_op(ctx, ('send_headers' if client else 'HEADERS', 1, 'req', False))
+            ctx.me.data_to_send()
+        ids = [1, 2, 3, 4, 5, 6, 8, 9]
+        frames = []
+        for i in range(2):
+            f = hf.SettingsFrame(0)
+            k = sym_choice('id%d' % i, ids)
+            f.settings = {k: sym_int('value%d' % i, 0, INT32, default=1)}
+            frames.append(f)
+        together = sym_bool('one_call')
+        try:
+            if together:
+                h2h.deliver(ctx.me, frames)
+            else:
+                h2h.deliver(ctx.me, frames[:1])
+                h2h.deliver(ctx.me, frames[1:])
+        except h2.exceptions.ProtocolError:
+            note('protocol-error')
+        except Exception as e:      # noqa
+            note('raised')
+            check(False, 'non-protocol-exception:%s:SETTINGS+SETTINGS' % type(e).__name__,
+                  repr(e)[:120])
+        else:
+            note('returned')
+    return h
+
+
 def numeric_shards(tier, seed):
     out = []
     for client in (True, False):
@@ -319,4 +353,8 @@ def shards(tier, seed):
         out.append(Shard('continuation/n=%d' % n, h_continuation_chain(n)))
     out += numeric_shards(tier, seed)
     out += host_only_shards(tier, seed)
+    for client in (True, False):
+        out.append(Shard('settings_twice/%s' % ('client' if client else 'server'),
+                         h_settings_twice(client), budget=200,
+                         expect=['returned', 'protocol-error']))
     return out
